@@ -51,17 +51,31 @@ def units_for(prop):
     the included unit itself."""
     us = all_units()
     sel = [u for u in us.values() if prop in u.get("properties", []) and not u.get("disabled") and not u.get("library")]
+    def closure(u):
+        out = []
+        for inc in u.get("include", []):
+            if inc in us:
+                out.append(inc)
+                out.extend(closure(us[inc]))
+        return out
     seen = {u["id"] for u in sel}
     work = list(sel)
     while work:
         u = work.pop()
-        for inc in u.get("include", []):
+        for inc in closure(u):
             if inc not in seen and inc in us:
                 seen.add(inc)
                 sel.append(us[inc])
                 work.append(us[inc])
     # a unit included by another selected unit that has no parts is verified there in full
-    full_includers = {inc for u in sel if not u.get("part") for inc in u.get("include", [])}
+    def closure(u):
+        out = []
+        for inc in u.get("include", []):
+            if inc in us:
+                out.append(inc)
+                out.extend(closure(us[inc]))
+        return out
+    full_includers = {inc for u in sel if not u.get("part") for inc in closure(u)}
     return [u for u in sel if u["id"] not in full_includers]
 
 
@@ -234,7 +248,7 @@ def closed_world(b):
         sf = B.SourceFile.get(path)
         allowed = []
         for p in b.pieces:
-            if p.path == path and p.orig is not None and p.kind in ("fn", "struct", "trait_fn"):
+            if p.path == path and p.orig is not None and p.kind in ("fn", "struct", "trait_fn") or (p.kind == "stub" and p.path == path and not p.opts.get("stub_only")):
                 allowed.append((p.start, p.end))
         for nm in cw.get("also", []):
             # "Type::method" constructor-like functions that may touch the field
